@@ -46,6 +46,28 @@ mod verif_kani_update_section {
         kani::cover!(key == K2);
     }
 
+    /// C05 (bounded: two pages - page 0 full with K1 first then K2 x 20, page 1 holding a newer K1):
+    /// search returns the newest entry across the page boundary; entry_count sums the pages
+    #[kani::proof]
+    #[kani::unwind(24)]
+    fn search_newest_across_pages() {
+        let mut p0 = UpdatePage::new();
+        p0.push(ent(K1, 100));
+        let mut i = 1;
+        while i < ENTRIES_PER_PAGE {
+            p0.push(ent(K2, i as u32));
+            i += 1;
+        }
+        let mut s = UpdateSection { pages: vec![p0], capacity_pages: 2 };
+        assert!(!s.is_full(), "a second page is still allowed");
+        let newer: u32 = kani::any();
+        assert!(s.append(ent(K1, newer)), "append opens the second page");
+        assert!(s.page_count() == 2 && s.entry_count() == ENTRIES_PER_PAGE + 1);
+        assert!(s.search(&K1).map(|e| e.archive_location.archive_offset) == Some(newer), "newest entry wins across pages");
+        assert!(s.search(&K2).map(|e| e.archive_location.archive_offset) == Some(ENTRIES_PER_PAGE as u32 - 1));
+        kani::cover!(newer == 100);
+    }
+
     /// C05 (bounded: capacity one page, empty section)
     #[kani::proof]
     #[kani::unwind(24)]
